@@ -19,7 +19,10 @@ OR(l) == [k |-> "OR", n |-> "-", sub |-> l]
 (* ---- environment ---- *)
 Recs == {"none", "pub", "auth"}
 UpTimes == {"atSigPub", "later", "between", "earlier"}      \* user publication time relative to the signature (earlier = not after the aggregation time)
-ExtBehaviours == {"honest", "otherRoot", "otherInput", "otherAggrTime", "otherPubTime", "alteredRightLink", "errorStatus", "badHmac", "noReply", "otherId"}
+(* alteredRightLink: one right-link hash differs; extraRightLink / missingRightLink: all of the signature's right links are there unchanged, followed by *)
+(* one more / the last one is missing (the count differs, and so does the root)                                                                  *)
+ExtBehaviours == {"honest", "otherRoot", "otherInput", "otherAggrTime", "otherPubTime", "alteredRightLink", "extraRightLink", "missingRightLink",
+                  "errorStatus", "badHmac", "noReply", "otherId"}
 CertStates == {"valid", "startsAtAggr", "endsAtAggr", "notYetValid", "expired", "unknownId", "badSignature"}
 PfStates == [atSig : {"match", "otherHash", "absent"}, later : {"true", "otherHash", "none"}]
 Envs == [internal : {"ok", "broken"}, cal : BOOLEAN, rec : Recs, up : {"none", "given"}, upTime : UpTimes, upHash : {"true", "other"},
@@ -35,11 +38,11 @@ WellFormed(e) == /\ (e.rec # "none" => e.cal)
 PfAvail(e) == e.pf = "given" /\ e.pfsrc # "downloadUntrusted"
 (* the extender's reply, as far as the rules look at it *)
 FetchOk(e) == e.ext \notin {"errorStatus", "badHmac", "noReply", "otherId"}
-RootTrue(e) == e.ext \notin {"otherRoot", "otherInput", "alteredRightLink", "otherPubTime"}   \* root = the true calendar root at the requested time
+RootTrue(e) == e.ext \notin {"otherRoot", "otherInput", "alteredRightLink", "extraRightLink", "missingRightLink", "otherPubTime"}   \* root = the true calendar root at the requested time
 InputOk(e) == e.ext # "otherInput"
 AggrOk(e) == e.ext # "otherAggrTime"
 PubTimeOk(e) == e.ext # "otherPubTime"
-RLinksOk(e) == e.ext # "alteredRightLink"
+RLinksOk(e) == e.ext \notin {"alteredRightLink", "extraRightLink", "missingRightLink"}
 (* the publication the publications-file policy would extend to: the earliest one not before the aggregation time *)
 NearestHash(e) == IF e.pfc.atSig # "absent" THEN (IF e.pfc.atSig = "match" THEN "true" ELSE "other")
                   ELSE IF e.pfc.later # "none" THEN (IF e.pfc.later = "true" THEN "true" ELSE "other") ELSE "none"
